@@ -296,6 +296,41 @@ pub fn gen_channel(fam: u64, rng: &mut Xoshiro, n: usize, bps: u32) -> Vec<i32> 
                 v.push(clampb(x as i64, bps));
             }
         }
+        15 => {
+            // quiet odd-valued material with isolated steps of exactly half the representable range
+            // (for 32-bit input a first difference of -2^31 or +2^31-1: the residual values at the very
+            // edge of what the format can carry), nothing else in the block overflowing
+            for _ in 0..n {
+                v.push(clampb(((rng.next() % 9) as i64 - 4) * 2 + 1, bps));
+            }
+            let half = 1i64 << (bps - 1);
+            let steps = 1 + (rng.next() % 2) as usize;
+            for _ in 0..steps {
+                if n >= 4 {
+                    let i = 1 + (rng.next() as usize) % (n - 2);
+                    let a = (rng.next() % 64) as i64 * 2 + 1;
+                    match rng.next() % 3 {
+                        0 => {
+                            v[i] = clampb(a, bps);
+                            v[i + 1] = clampb(a - half, bps);
+                        }
+                        1 => {
+                            v[i] = clampb(a - half, bps);
+                            v[i + 1] = clampb(a - 1, bps);
+                        }
+                        _ => {
+                            // a level shift by exactly -half: two flat levels, so that a first-order
+                            // predictor leaves one single residual of -2^(bps-1) and zeros elsewhere
+                            let top = clampb(half / 2 + a, bps);
+                            let bottom = clampb(half / 2 + a - half, bps);
+                            for (j, x) in v.iter_mut().enumerate() {
+                                *x = if j <= i { top } else { bottom };
+                            }
+                        }
+                    }
+                }
+            }
+        }
         12 => {
             // full scale constant (min or max)
             v.resize(n, if rng.next() % 2 == 0 { lo as i32 } else { hi as i32 });
@@ -311,7 +346,7 @@ pub fn gen_channel(fam: u64, rng: &mut Xoshiro, n: usize, bps: u32) -> Vec<i32> 
     v
 }
 
-pub const N_FAM: u64 = 15;
+pub const N_FAM: u64 = 16;
 
 /// PCM, interleaved, plus the per-channel view
 #[derive(Clone, Debug)]
